@@ -232,6 +232,7 @@ pub trait Canon: Sized + Send + Sync + 'static {
 }
 impl<const K: usize> Canon for S<K> { fn canon(&self) -> String { format!("v:{}", self.0) } fn as_int(&self) -> i64 { self.0 } fn from_int(i: i64) -> Option<Self> { Some(S(i, Uid::new())) } }
 impl Canon for N0 { fn canon(&self) -> String { format!("v:{}", self.0) } fn as_int(&self) -> i64 { self.0 } fn from_int(i: i64) -> Option<Self> { Some(N0(i, Uid::new())) } }
+impl<T: Canon> Canon for std::sync::Arc<T> { fn canon(&self) -> String { (**self).canon() } fn as_int(&self) -> i64 { (**self).as_int() } fn from_int(i: i64) -> Option<Self> { T::from_int(i).map(std::sync::Arc::new) } }
 impl Canon for i64 { fn canon(&self) -> String { format!("v:{self}") } fn as_int(&self) -> i64 { *self } fn from_int(i: i64) -> Option<Self> { Some(i) } }
 impl<const E: usize, const D: bool> Canon for M<E, D> {
     fn canon(&self) -> String { format!("m:{}:{}:{}", self.val, hexs(&self.ext), hex(&self.bytes)) }
@@ -253,6 +254,7 @@ macro_rules! with_compound {
         match $name {
             "S0" => { type $T = S<0>; $body } "S1" => { type $T = S<1>; $body } "S2" => { type $T = S<2>; $body }
             "N0" => { type $T = N0; $body }
+            "AN" => { type $T = std::sync::Arc<N0>; $body } "AS" => { type $T = std::sync::Arc<S<0>>; $body }
             "M00" => { type $T = M<0, false>; $body } "M01" => { type $T = M<0, true>; $body }
             "M10" => { type $T = M<1, false>; $body } "M11" => { type $T = M<1, true>; $body }
             "M20" => { type $T = M<2, false>; $body } "M21" => { type $T = M<2, true>; $body }
@@ -278,6 +280,7 @@ macro_rules! with_insertable {
         match $name {
             "S0" => { type $T = S<0>; $body } "S1" => { type $T = S<1>; $body } "S2" => { type $T = S<2>; $body }
             "N0" => { type $T = N0; $body } "I" => { type $T = i64; $body }
+            "AN" => { type $T = std::sync::Arc<N0>; $body } "AS" => { type $T = std::sync::Arc<S<0>>; $body }
             "M00" => { type $T = M<0, false>; $body } "M01" => { type $T = M<0, true>; $body }
             "M10" => { type $T = M<1, false>; $body } "M11" => { type $T = M<1, true>; $body }
             "M20" => { type $T = M<2, false>; $body } "M21" => { type $T = M<2, true>; $body }
@@ -305,7 +308,7 @@ fn script_err(e: assets_manager::Error) -> BoxedError { Box::new(e) }
 #[derive(Debug, Clone)]
 pub enum Tok { Lit(i64), Load(String, String), LoadIgn(String, String), Cached(String, String), Owned(String, String), NoRec(String, String), Thread(String, String), Catch(String, String), Raw(String, String), Panic, Error }
 
-pub const COMPOUND_NAMES: &[&str] = &["S0", "S1", "S2", "N0", "M00", "M01", "M10", "M11", "M20", "M21", "M30", "M31", "M40", "M41", "M50", "M51",
+pub const COMPOUND_NAMES: &[&str] = &["S0", "S1", "S2", "N0", "AN", "AS", "M00", "M01", "M10", "M11", "M20", "M21", "M30", "M31", "M40", "M41", "M50", "M51",
     "D0", "D1", "D2", "D3", "D4", "D5", "R0", "R1", "R2", "R3", "R4", "R5"];
 
 /// Whole-script parse (a script with any malformed token fails before executing anything).
